@@ -744,6 +744,12 @@ class World:
             return self.reap(args[0], args[1] if len(args) > 1 else None)
         if act == 'Pad':
             return True
+        if act == 'Run':                 # hand-written schedules: a whole request
+            if not self.begin(args[0]):
+                return False
+            while self.can_call(args[0]):
+                self.call(args[0])
+            return self.end(args[0])
         raise tlc.MachineryError('unknown schedule action %r' % (act,))
 
     def enabled(self):
